@@ -139,7 +139,7 @@ Print Assumptions C14_partial_coarse_fragment.
 From CGV Require Import Reader.ReaderImpl Reader.Grammar Reader.Lin Reader.ReaderCheck
      Resolve.GraphOps Resolve.Pipeline Resolve.CopyProofs
      Frag.NDict Frag.StripImpl Frag.FragText Hydro.Hydrogens Hydro.Fragments
-     Hydro.SquashDefs Hydro.HydroDefs Resolve.PipelineFull Compose.CutModel Compose.CutHydrogens Reader.ReaderUnit Frag.SmilesParse Frag.SmilesSpec Frag.Template Frag.TemplateProofs Dialect.ReturnedAnnot Dialect.ReturnedCar Dialect.ReturnedExample Dialect.ReturnedCoarse Dialect.TextAnnot Dialect.BaseAnnotUnits Dialect.MachineAnnot Dialect.BaseAnnot Dialect.FragAnnot Dialect.CopyAnnot Dialect.TemplateAnnot.
+     Hydro.SquashDefs Hydro.HydroDefs Resolve.PipelineFull Compose.CutModel Compose.CutHydrogens Reader.ReaderUnit Frag.SmilesParse Frag.SmilesSpec Frag.Template Frag.TemplateProofs Dialect.ReturnedAnnot Dialect.ReturnedCar Dialect.ReturnedExample Dialect.ReturnedCoarse Dialect.TextAnnot Dialect.CoarseTextAnnot Write.FragRead Dialect.BaseAnnotUnits Dialect.MachineAnnot Dialect.BaseAnnot Dialect.FragAnnot Dialect.CopyAnnot Dialect.TemplateAnnot.
 Open Scope Z_scope.
 
 (** ---- base graph ---- *)
@@ -437,6 +437,55 @@ Example C14_returned_coarse_nonvacuous :
   end.
 Proof. exact returned_coarse_example. Qed.
 
+(** ... and from the TEXT of a COARSE fragment definition ({#F=[$][#X;w=2;k=v][#Y][$]}), over the writer component's model
+    of read_fragment_cgsmiles / the coarse branch of fragment_iter (Write/FragRead.v): the annotation written on the i-th node
+    token is on template node i under EVERY key it writes (the annotation dicts are applied last), every other key outside
+    atomname/bonding/fragname/fragid/w is what read_cgsmiles gave for the clean text, and every copy of the node in the graph
+    a coarse resolve() returns has the written value *)
+Theorem C14_coarse_text_annotation_on_template : forall fo name toks dc,
+  FragText.wf toks dc = true -> excluded toks dc = false ->
+  forall clean desc ez ann, strip_bonding_descriptors fo (FragText.render (decorate toks dc)) = Ok (clean, desc, ez, ann) ->
+  forall T, read_coarse_fragment fo name (FragText.render (decorate toks dc)) = Ok T ->
+  forall pre body annot post a key v,
+  decorate toks dc = pre ++ ITok (TBracket body annot) :: post ->
+  fragment_node_parser fo (annot_text annot) = Ok a -> In (key, v) a ->
+  has_node T (Z.of_nat (atoms_of pre)) = true ->
+  node_get T (Z.of_nat (atoms_of pre)) key = Some v.
+Proof. exact coarse_text_annotation_on_template. Qed.
+
+Theorem C14_coarse_template_exact : forall fo name toks dc,
+  FragText.wf toks dc = true -> excluded toks dc = false ->
+  forall clean desc ez ann, strip_bonding_descriptors fo (FragText.render (decorate toks dc)) = Ok (clean, desc, ez, ann) ->
+  forall T, read_coarse_fragment fo name (FragText.render (decorate toks dc)) = Ok T ->
+  exists g, ReaderImpl.read_cgsmiles fo clean = Ok g /\ node_keys T = node_keys g /\
+    forall j key, ~ In key coarse_written ->
+      node_get T (Z.of_nat j) key = if has_node g (Z.of_nat j) then annotated_value key (nd_get j ann) (node_get g (Z.of_nat j) key) else None.
+Proof. exact coarse_template_exact. Qed.
+
+Theorem C14_coarse_text_annotation_reaches_returned_graph : forall fo name toks dc,
+  FragText.wf toks dc = true -> excluded toks dc = false ->
+  forall T, read_coarse_fragment fo name (FragText.render (decorate toks dc)) = Ok T ->
+  forall C, wf_cut C -> forall fd, templates_ok C fd -> wf_dict fd -> fd_get name fd = Some T ->
+  forall B, is_base C B -> forall prev car fo_,
+  meta_of prev = B -> resolve_step_full true false fd prev car = Ok fo_ ->
+  exists m, sort_mapping (fo_m3 fo_) = Ok m /\ SortGraphProofs.inj_on (map_get m) (node_keys (fo_m3 fo_)) /\
+    forall pre body annot post a key v,
+      decorate toks dc = pre ++ ITok (TBracket body annot) :: post ->
+      fragment_node_parser fo (annot_text annot) = Ok a -> In (key, v) a -> carried_key key ->
+      forall p xs x, nth_error (c_parts C) p = Some (name, xs) -> nth_error xs (atoms_of pre) = Some x ->
+        node_get (fo_mol fo_) (map_get m (phi C x)) key = Some v.
+Proof. exact coarse_text_annotation_reaches_returned_graph. Qed.
+
+Example C14_coarse_text_nonvacuous :
+  FragText.render (decorate exc_toks exc_dc) = S "[$][#X;w=2;k=v][#Y][$]" /\ FragText.wf exc_toks exc_dc = true /\ excluded exc_toks exc_dc = false /\
+  match read_coarse_fragment exc_fo (S "F") (FragText.render (decorate exc_toks exc_dc)) with
+  | Ok T => node_keys T = [0; 1] /\
+      map (fun k => (node_get T k (S "weight"), node_get T k (S "k"))) [0; 1]
+      = [(Some (VFlt (S "2.0")), Some (VStr (S "v"))); (Some (VFlt (S "1.0")), None)]
+  | Err _ => False
+  end.
+Proof. exact coarse_text_example. Qed.
+
 (** non-vacuity *)
 Example C14_base_annotation_nonvacuous :
   let fo := fo_of_table [(S "1", Some (S "1.0")); (S "2", Some (S "2.0"))] in
@@ -461,6 +510,10 @@ Print Assumptions C14_annotation_reaches_returned_graph_full.
 Print Assumptions C14_disconnected_copy_exact.
 Print Assumptions C14_annotation_reaches_returned_coarse_graph.
 Print Assumptions C14_returned_coarse_nonvacuous.
+Print Assumptions C14_coarse_text_annotation_on_template.
+Print Assumptions C14_coarse_template_exact.
+Print Assumptions C14_coarse_text_annotation_reaches_returned_graph.
+Print Assumptions C14_coarse_text_nonvacuous.
 Print Assumptions C14_text_annotation_reaches_returned_graph.
 Print Assumptions C14_text_annotation_not_gained.
 Print Assumptions C14_template_exact.
